@@ -159,6 +159,8 @@ def plans_of(spec):
 
 def _outcome(res, ix):
     """('ok', rows) | ('rejected', message) | ('crash', class)"""
+    if res.crash_class() == 'SLOW':
+        return ('slow', '')
     if res.crashed():
         return ('crash', '%s at %s' % (res.crash_class(), res.crash_site()))
     if 'CLI' in ix:
@@ -217,6 +219,8 @@ def judge(spec, results):
         if base[0] != 'ok':
             continue     # the canonical presentation itself is not accepted: nothing to compare with
         oc = _outcome(results[tag], ix)
+        if oc[0] == 'slow':
+            continue
         desc = pres_signature(pres)
         if oc[0] == 'crash':
             add('C04_CRASH_ON_PRESENTATION', 'canonical presentation aligned, this presentation ended with %s [%s]' % (oc[1], desc), tag)
